@@ -124,6 +124,7 @@ class UnitGen:
         self.disabled = set(disabled or [])
         self.canary = None  # fn id -> append assert(false)
         self.force_assumed = set()  # fn ids whose body is outside the verifier's subset on this tree: contract assumed, reported
+        self.force_drop = set()     # assumed fn ids whose copied SIGNATURE no longer compiles in the unit (e.g. it names a new private type)
 
     def names_baseline(self):
         if not hasattr(self, '_names'):
@@ -531,6 +532,12 @@ class UnitGen:
         if fd.id in self.force_assumed and fd.mode == 'verify':
             fd.mode = 'assumed'
             g.demoted = getattr(g, 'demoted', []) + [fd.id]
+        if fd.id in self.force_drop:
+            tags = set(fd.tags)
+            for sec in fd.sections:
+                tags |= set(sec.tags)
+            g.lost_functions = getattr(g, 'lost_functions', []) + [dict(id=fd.id, path=fd.path, mode=fd.mode, tags=sorted(tags), why='signature no longer compiles in the unit')]
+            return
         rf = self.rf(fd.file)
         try:
             it = rf.find('fn', fd.path)
